@@ -8,7 +8,9 @@ def extra_lines(rng, tier):
     for i in range(200 if tier == "quick" else 4000):
         nt = rng.choice([2, 3, 4, 6, 8])
         threads = "#".join(";".join(["NEXT"] * rng.randint(1, 5)) for _ in range(nt))
-        out.append("g%d|100||%s|%s%d|mode=O" % (i, threads, rng.choice("rp"), rng.randint(1, 10 ** 9)))
+        # generators that have already issued many ids: decimal-length and word boundaries of the counter
+        g0 = rng.choice([0, 0, 8, 98, 997, 9997, 9998, 9999, 10000, 99998, (1 << 32) - 2, (1 << 53) - 1, (1 << 64) - 3])
+        out.append("g%d|100||%s|%s%d|mode=O,gen0=%d" % (i, threads, rng.choice("rp"), rng.randint(1, 10 ** 9), g0))
     return out
 
 
@@ -24,8 +26,8 @@ def judge_repro(rec, prog, info):
             if n != "1":
                 return "generator advanced by %s in one step" % n
             want.append(int(old))
-    if sorted(want) != list(range(min(want), min(want) + len(want))) if want else False:
-        return "generator counters handed out are not consecutive and distinct: %s" % want[:10]
+    if want and want != [(want[0] + i) % (1 << 64) for i in range(len(want))]:
+        return "generator counters handed out (in trace order) are not c0, c0+1, ...: %s" % want[:10]
     for tag, rest in rec["ev"]:
         if tag == "S" and (" LD:gen" in rest or " ST:gen" in rest):
             return "the generator counter is read or written by a separate load/store (%s): not one atomic step" % rest
